@@ -196,6 +196,9 @@ pub fn run(args: &Args) -> i32 {
         }
     }
     scenario_duplicate_invalid(args, &mut rng, &mut r);
+    for _ in 0..args.tier.pick(2, 10) {
+        scenario_child_of_invalid_tip(&mut rng, &mut r);
+    }
     {
         let want = args.tier.pick(2, 12);
         let mut tries = 0;
@@ -212,6 +215,7 @@ pub fn run(args: &Args) -> i32 {
     r.c01.require("deliveries_runs", 1);
     r.c01.require("obs.reorgs", 1);
     r.c01.require("scenario.light_branch_overtakes_runs", 1);
+    r.c01.require("scenario.child_of_invalid_tip_runs", 1);
     if n_orders > 5 && FIXED_ORDER.with(|f| f.borrow().is_none()) {
         r.c01.require("order.SwitchBack.realised", 1);
     }
@@ -589,6 +593,13 @@ fn deliver_and_check(
     hooks::set_plan(if matches!(kind, OrderKind::InvalidDupLagged) {
         let mut points = std::collections::BTreeMap::new();
         points.insert("chain::before_verify_block", (2000u64, 4000u64));
+        hooks::DelayPlan { points, seed: rng.next_u64() }
+    } else if matches!(kind, OrderKind::InOrderInvalidTwice) {
+        // slow preload thread: every block arrives while its parent is still pending, and is
+        // loaded by the preload thread only after the parent's verdict is out -- for the child of
+        // an invalid block: after its parent has been deleted
+        let mut points = std::collections::BTreeMap::new();
+        points.insert("chain::before_preload", (2000u64, 12_000u64));
         hooks::DelayPlan { points, seed: rng.next_u64() }
     } else if with_plan {
         hooks::random_chain_plan(rng)
@@ -1236,6 +1247,50 @@ fn scenario_duplicate_invalid(args: &Args, rng: &mut Rng, r: &mut Reports) {
         tg.order.pop();
         r.c01.count("scenario.duplicate_invalid_runs");
     }
+}
+
+/// Directed scenario (C01): the child of an invalid block is accepted while its parent is still
+/// pending verification (slow preload thread), and is picked up by the preload thread only
+/// after the parent was refused and deleted. M = invalid twin of main-chain block c6 (it extends
+/// the tip when it arrives, so it is verified at once), D = c7 re-parented onto M; order:
+/// c1..c5, M, D, c6, c7. Judged by the ordinary oracles (every connectable delivery answered,
+/// no node thread panics, final tip c7).
+fn scenario_child_of_invalid_tip(rng: &mut Rng, r: &mut Reports) {
+    let mut params = ChainParams::default();
+    params.epoch = EpochMode::Permanent { genesis_len: 100, epoch_len: 100 };
+    let gi = consensus::build(&params);
+    let cfg = TreeCfg { n_blocks: 0, invalid: 0, max_new_txs: 1, uncle_pm: 0, ..Default::default() };
+    let mut tg = TreeGen::new(&gi, cfg, rng.next_u64());
+    let mut tip = tg.rc.genesis;
+    for _ in 0..6 {
+        tip = tg.extend(&tip);
+    }
+    let c6 = tip;
+    let c7 = tg.extend(&c6);
+    // (contextual rule violations: the block passes the chain service's own checks)
+    let mut kinds = vec![vnode::treegen::Mutation::DaoField, vnode::treegen::Mutation::BadChainRoot, vnode::treegen::Mutation::RewardPlusOne];
+    rng.shuffle(&mut kinds);
+    let mut found = None;
+    for k in kinds {
+        if let Some(t) = tg.mutate(&c6, k) {
+            found = Some((t, k));
+            break;
+        }
+    }
+    let Some((twin, kind)) = found else { return };
+    let m = tg.rc.add(&twin, false, Some(&format!("{kind:?}")), tg.rc.get(&c6).epoch.clone());
+    let d_block = tg.reparent(&c7, &m);
+    let d = tg.rc.add(&d_block, true, None, tg.rc.get(&c7).epoch.clone());
+    let mut order: Vec<H> = tg.rc.path(&tg.rc.get(&c6).parent).into_iter().skip(1).collect();
+    order.extend([m, d, c6, c7]);
+    tg.order.push(m);
+    tg.order.push(d);
+    let shape = model::tree_shape(&tg.rc, &tg.order);
+    FIXED_ORDER.with(|f| *f.borrow_mut() = Some(order));
+    // (the kind only selects the delay plan: slow preload thread)
+    deliver_and_check(&tg, &gi, &OrderKind::InOrderInvalidTwice, 1, 0, true, rng, shape, r);
+    FIXED_ORDER.with(|f| *f.borrow_mut() = None);
+    r.c01.count("scenario.child_of_invalid_tip_runs");
 }
 
 /// Directed scenario (C01/C02, "uneven difficulty"): two branches leave the short genesis epoch
